@@ -651,6 +651,7 @@ func (c *minecraftConn) SetActiveSessionHandler(registry *state.Registry, handle
 	// we need to call Unlock before handler.Activated()
 	// to prevent deadlock pre-1.20.2 by clientAuthSessionHandler's completeLoginProtocolPhaseAndInitialize
 	c.sessionHandlerMu.Unlock()
+	verifhook.Point("sh.switch.installed")
 
 	handler.Activated()
 
